@@ -11,6 +11,7 @@ import PsutilModel.Proofs.C10
 import PsutilModel.Proofs.C10Front
 import PsutilModel.Proofs.C10Conc
 import PsutilModel.Proofs.C10Dict
+import PsutilModel.Proofs.C10Sample
 import PsutilModel.Model.C10Gen
 namespace Psutil.C10
 open Spec
@@ -417,23 +418,101 @@ theorem C10_concurrent_refines (w : Name → Nat) (pre post : List (Nat × Op)) 
           :: (serial cfg (step cfg (runAll cfg St.init (pre.map (·.2))) (.call n true raw)).1 post).2 := by
   rw [serial_out_at, C10_refines w (pre.map (·.2)) n raw hw hr hn hne]
 
-/-- **C10_lock_order_is_not_sampling_order.** Characterisation of the stated limit "the raw sample is
-    taken outside the lock": the serial order of `C10_serialisable` is the order in which the calls
-    *took the lock*, not the order in which they *read the kernel's counters*. Thread 0 reads 100, is
-    overtaken by thread 1 which reads 105 and goes through `wrap_numbers` first; thread 0's older
-    sample then looks like a backwards step (100 < 105) and is reported as 205 — and every later
-    call carries the spurious offset 105 (110 → 215) until `cache_clear()`, although the kernel's
-    counter (100, 105, 110 in sampling order) never went backwards. Each thread on its own still
-    sees non-decreasing values. The harness replays exactly this overtaking on two real threads. -/
+/-! ### Sampling order (finding C10-sample-outside-lock, fixes/C10-sample-under-lock) -/
+
+/-- the front ends take the raw sample and feed it to `wrap_numbers` inside one lock -/
+def Cfg.SampleGood (c : Cfg) : Prop := c.sampleUnderLock = true
+
+/-- the current source with the raw sample taken OUTSIDE every lock (the front ends before
+    fixes/C10-sample-under-lock) / INSIDE the front ends' sampling lock (after it) -/
+def sampleOutsideCfg : Cfg := { cfg with sampleUnderLock := false }
+def sampleInsideCfg : Cfg := { cfg with sampleUnderLock := true }
+
+/-- **Full statement** for concurrent callers: in every interleaving of any number of threads the
+    `wrap_numbers` calls go through `_wn.lock` in the order in which their raw snapshots were read
+    from the kernel (`Sys.samples`, a ghost record of the platform calls) — at most one call has
+    sampled and not yet taken the lock — and, whenever the lock is free, a `nowrap=True` call that
+    sits in the log after the bodies `pre` has returned the history-defined `expected` value over
+    `pre`, i.e. over exactly the raw kernel snapshots sampled before its own (and the `cache_clear`s
+    that took the lock before it). No "given each call's raw sample in lock order" caveat. -/
+def C10_concurrent_Full (c : Cfg) : Prop :=
+  ∀ (w : Name → Nat) (acts : List Act) (s : Sys), runC c Sys.init acts = some s →
+    (callsOf s.log ++ pending s = s.samples ∧ (pending s).length ≤ 1)
+    ∧ (s.lock = none → ∀ (pre post : List (Nat × Op)) (t : Nat) (n : Name) (raw : Raw),
+        s.log = pre ++ (t, .call n true raw) :: post →
+        (∀ op ∈ pre.map (·.2), OpW w op) → RawW (w n) raw → NodupKeys raw → raw ≠ [] →
+        callsOf pre ++ (t, .call n true raw) :: (callsOf post ++ pending s) = s.samples
+        ∧ s.outs = (serial c St.init pre).2 ++ (t, .dict (expected (pre.map (·.2)) n raw))
+            :: (serial c (step c (runAll c St.init (pre.map (·.2))) (.call n true raw)).1 post).2)
+
+/-- **C10_concurrent_full_strength.** The full statement holds for every configuration in which the
+    bodies run under `_wn.lock` and the sample is taken under the front ends' lock. Together with
+    `C10_monotone` on the specification: a device that stays listed never goes backwards in the
+    order in which the kernel was read, whatever the threads do. -/
+theorem C10_concurrent_full_strength (c : Cfg) (hg : c.Good) (hc : c.GoodConc) (hs : c.SampleGood) :
+    C10_concurrent_Full c := by
+  intro w acts s h
+  have hiS := runS_inv c hc hs acts Sys.init s invS_init h
+  have hiC := runC_inv c hc acts Sys.init s (invC_init c) h
+  refine ⟨⟨hiS.order, pending_length s⟩, ?_⟩
+  intro hl pre post t n raw hlog hw hr hn hne
+  refine ⟨?_, ?_⟩
+  · rw [← hiS.order, hlog]
+    simp [callsOf, isCall, List.filter_append]
+  · have hser := hiC.free hl
+    rw [hlog, ] at hser
+    have := serial_out_at c pre post t (.call n true raw)
+    rw [refines_good c hg w (pre.map (·.2)) n raw hw hr hn hne] at this
+    rw [← this, hser]
+
+/-- … for the current source with the sample taken under the lock (builds before and after
+    fixes/C10-sample-under-lock lands; once it has landed `sampleInsideCfg = cfg`, see the block at
+    the end of this section). -/
+theorem C10_concurrent_full_strength_fixed : C10_concurrent_Full sampleInsideCfg :=
+  C10_concurrent_full_strength sampleInsideCfg
+    (by refine ⟨?_, ?_, ?_⟩ <;> decide) (by refine ⟨?_, ?_⟩ <;> decide) (by unfold Cfg.SampleGood; decide)
+
+/-- **C10_lock_order_is_not_sampling_order.** Counterexample to the full statement for the front ends
+    that sample OUTSIDE the lock (finding C10-sample-outside-lock): thread 0 reads 100, is overtaken
+    by thread 1 which reads 105 and goes through `wrap_numbers` first; thread 0's older sample then
+    looks like a backwards step (100 < 105) and is reported as 205 — and every later call carries
+    the spurious offset 105 (110 → 215) until `cache_clear()`, although the kernel's counter
+    (100, 105, 110 in sampling order) never went backwards. The harness replays exactly this
+    overtaking on two real threads. With the sample under the lock the schedule is not a run. -/
 theorem C10_lock_order_is_not_sampling_order :
     let acts : List Act :=
       [.sample 0 .net [("eth0", [100])], .sample 1 .net [("eth0", [105])],
        .acquire 1, .load 1, .store 1, .release 1,
        .acquire 0, .load 0, .store 0, .release 0,
        .sample 0 .net [("eth0", [110])], .acquire 0, .load 0, .store 0, .release 0]
-    (runC cfg Sys.init acts).map (·.outs)
-      = some [(1, .dict [("eth0", [105])]), (0, .dict [("eth0", [205])]), (0, .dict [("eth0", [215])])] := by
-  decide
+    (runC sampleOutsideCfg Sys.init acts).map (·.outs)
+      = some [(1, .dict [("eth0", [105])]), (0, .dict [("eth0", [205])]), (0, .dict [("eth0", [215])])]
+    ∧ ¬ C10_concurrent_Full sampleOutsideCfg
+    ∧ (runC sampleInsideCfg Sys.init acts).isNone = true := by
+  refine ⟨by decide, ?_, by decide⟩
+  intro hfull
+  have key : (runC sampleOutsideCfg Sys.init [.sample 0 .net [("eth0", [100])],
+      .sample 1 .net [("eth0", [105])], .acquire 1, .load 1, .store 1, .release 1,
+      .acquire 0, .load 0, .store 0, .release 0]).map
+        (fun s => decide (callsOf s.log ++ pending s = s.samples)) = some false := by decide
+  cases hrun : runC sampleOutsideCfg Sys.init [.sample 0 .net [("eth0", [100])],
+      .sample 1 .net [("eth0", [105])], .acquire 1, .load 1, .store 1, .release 1,
+      .acquire 0, .load 0, .store 0, .release 0] with
+  | none => simp [hrun] at key
+  | some s =>
+    have h1 := (hfull (fun _ => 1) _ s hrun).1.1
+    simp [hrun, h1] at key
+
+/- AFTER fixes/C10-sample-under-lock HAS LANDED in /repo (fact `sampleUnderLock` = true; rebaseline):
+   uncomment this block — the obligation and the full-strength theorem for the code as it is.
+
+/-- obligation fed by the translator fact `sampleUnderLock`: in both front ends the platform call and
+    the `wrap_numbers` call sit inside one `with <module-level threading.Lock()>:` when `nowrap` -/
+theorem cfg_sample_under_lock : cfg.SampleGood := by unfold Cfg.SampleGood; decide
+
+theorem C10_concurrent_full_strength_cfg : C10_concurrent_Full cfg :=
+  C10_concurrent_full_strength cfg cfg_good cfg_good_conc cfg_sample_under_lock
+-/
 
 /-- **C10_unlocked_not_serialisable.** The lock is what makes this true: with `run` outside the
     lock two threads that both read the cache `{sda:100}` before either writes it back return 110
